@@ -101,7 +101,7 @@ def gen_case(rng, tier):
             'rg': rng.choice([None, None, None, 1, 2, 7, 100, 500]), 'compression': rng.choice(CODECS),
             'schema': rng.choice(['flat', 'flat', 'nested', 'nested', 'single_int', 'single_str']), 'via': rng.choice(['path', 'path', 'fileobj', 'open_obj']),
             'resub': rng.random() < 0.4, 'salt': rng.randint(0, 1000), 'dump_twice': rng.random() < 0.3,
-            'perm': rng.random() < 0.25}
+            'perm': rng.random() < 0.25, 'no_rewind': rng.random() < 0.3}
 
 
 def cases(tier, rng):
@@ -129,6 +129,11 @@ def cases(tier, rng):
         for kind in ('flat', 'nested'):
             c = dict(base)
             c.update(count=count, n=n, schema=kind, perm=True)
+            yield c
+    for count, n in [(3, 8), (9, 4), (0, 4)]:
+        for resub in (False, True):
+            c = dict(base)
+            c.update(count=count, n=n, via='fileobj', no_rewind=True, resub=resub)
             yield c
     m = {'quick': 70, 'thorough': 900, 'search': 120}[tier]
     for _ in range(m):
@@ -199,11 +204,13 @@ def real(case):
             lkw = {'batch_size': case['b']}
             if case['via'] == 'open_obj':
                 lkw['open_obj'] = my_open
-            src = io.BytesIO(data) if buf is not None else path
+            # a file object: a fresh one, or (no_rewind) the very object the dump wrote to, left where the writer left it —
+            # a parquet reader addresses its file by absolute offsets
+            src = (buf if case.get('no_rewind') else io.BytesIO(data)) if buf is not None else path
             obs = rsparquet.load_from_file(src, **lkw)
             loads = []
             for k in range(2 if case['resub'] else 1):
-                if buf is not None and k:
+                if buf is not None and k and not case.get('no_rewind'):
                     src.seek(0)
                 back = []
                 done = []
